@@ -406,6 +406,113 @@ fn page_aligned_receivers(ctx: &Ctx) -> fw::Stats {
     })
 }
 
+/// The validators and classifiers (C14 / C16 functions) are public functions that read a caller
+/// buffer too: each is called on buffers that END at a PROT_NONE page (and on buffers that START
+/// right after one), so a read outside the slice faults in every build.  Only faults and panics
+/// count here - whether the answer is right is C14's / C16's question.
+fn validators_at_guard_pages(ctx: &Ctx) -> fw::Stats {
+    use crate::memgen;
+    use crate::valchk::{self, C14_FNS, C16_FNS};
+    let fns: Vec<valchk::VFn> = C14_FNS.iter().chain(C16_FNS.iter()).cloned().collect();
+    fw::par_run(ctx, fns.len(), |part, st| {
+        let f = fns[part];
+        let mut g = crate::guard::GuardRegion::new(2);
+        let mut units8: Vec<Vec<u8>> = memgen::PLANT8.iter().map(|u| u.to_vec()).collect();
+        units8.push(vec![0x1B]);
+        units8.push(vec![0xED]);
+        units8.push(vec![0xED, 0xA0]);
+        units8.push(vec![0xED, 0x9F]);
+        units8.push(vec![0xE0, 0xA0]);
+        units8.push(vec![0xF4, 0x8F, 0xBF]);
+        let units16: Vec<Vec<u16>> = memgen::PLANT16.iter().map(|u| u.to_vec()).collect();
+        let ncls = if f.is_u16() { units16.len() } else { units8.len() };
+        for len in 0..=72usize {
+            if fw::should_stop() {
+                return;
+            }
+            for fk in [0usize, 2, 4] {
+                for cls in 0..ncls {
+                    // the planted unit near the END of the buffer (cut off by it), and once at the start
+                    for back in 0..=5usize {
+                        if back > len {
+                            continue;
+                        }
+                        let pos = if back == 5 { 0 } else { len - back };
+                        let (mut s8, mut s16) = (vec![], vec![]);
+                        if f.is_u16() {
+                            s16 = memgen::plant16(fk, len, pos, &units16[cls]);
+                        } else {
+                            s8 = memgen::plant8(fk, len, pos, &units8[cls]);
+                            if f.needs_str() {
+                                s8 = String::from_utf8_lossy(&s8).into_owned().into_bytes();
+                            }
+                        }
+                        for at_end in [true, false] {
+                            st.evals += 1;
+                            st.nontrivial_distinct();
+                            st.class("validator-or-classifier-on-a-guard-page-fenced-buffer");
+                            let r = if f.is_u16() {
+                                let b = if at_end { g.end_u16(s16.len()) } else { g.start_u16(s16.len()) };
+                                b.copy_from_slice(&s16);
+                                let dsc = crate::guard::Desc { what: f.name(), encoding: "-", data: b.as_ptr() as *const u8, len: b.len() * 2 };
+                                let _g = crate::guard::enter(&dsc);
+                                let bb: &[u16] = b;
+                                fw::catch(|| valchk::call(f, &[], bb))
+                            } else {
+                                let b = if at_end { g.end_u8(s8.len()) } else { g.start_u8(s8.len()) };
+                                b.copy_from_slice(&s8);
+                                let dsc = crate::guard::Desc { what: f.name(), encoding: "-", data: b.as_ptr(), len: b.len() };
+                                let _g = crate::guard::enter(&dsc);
+                                let bb: &[u8] = b;
+                                fw::catch(|| valchk::call(f, bb, &[]))
+                            };
+                            if let Err(p) = r {
+                                st.violations.push(fw::Violation {
+                                    msg: format!("{} panicked on src8 {} src16 [{}] ({} a guard page): {}", f.name(), fw::hex(&s8), fw::hex16(&s16), if at_end { "ending at" } else { "starting after" }, p),
+                                    sig: "C06:validator-panic".into(),
+                                    case: serde_json::json!({"kind": "c06_validator", "function": f.name(), "src8_hex": fw::hex(&s8), "src16_hex": fw::hex16(&s16), "at_end": at_end}),
+                                });
+                                return;
+                            }
+                        }
+                    }
+                }
+            }
+        }
+    })
+}
+
+/// Encoding::for_label is a public function without preconditions: no panic whatever the argument
+fn for_label_no_panic(ctx: &Ctx) -> fw::Stats {
+    fw::par_run(ctx, 256, |b, st| {
+        let b = b as u8;
+        let labels = &crate::golden::golden().labels;
+        for len in 0..=48usize {
+            let v = vec![b; len];
+            st.evals += 1;
+            st.class("for_label-never-panics");
+            if let Err(p) = fw::catch(|| (encoding_rs::Encoding::for_label(&v), encoding_rs::Encoding::for_label_no_replacement(&v))) {
+                st.violations.push(fw::Violation { msg: format!("Encoding::for_label panicked on {}: {}", fw::hex(&v), p), sig: "C06:for_label-panic".into(), case: serde_json::json!({"kind": "c06_for_label", "label_hex": fw::hex(&v)}) });
+                return;
+            }
+        }
+        // every label extended by 1..=24 copies of this byte (the 20th significant byte is the first
+        // one past the longest label)
+        for (l, _) in labels.iter().step_by(3) {
+            for k in 1..=24usize {
+                let mut v = l.as_bytes().to_vec();
+                v.extend(std::iter::repeat(b).take(k));
+                st.evals += 1;
+                st.nontrivial_distinct();
+                if let Err(p) = fw::catch(|| (encoding_rs::Encoding::for_label(&v), encoding_rs::Encoding::for_label_no_replacement(&v))) {
+                    st.violations.push(fw::Violation { msg: format!("Encoding::for_label panicked on {} ({:?}): {}", fw::hex(&v), String::from_utf8_lossy(&v), p), sig: "C06:for_label-panic".into(), case: serde_json::json!({"kind": "c06_for_label", "label_hex": fw::hex(&v)}) });
+                    return;
+                }
+            }
+        }
+    })
+}
+
 /// the one-shot methods size their own buffers from the length queries and treat OutputFull as
 /// unreachable: every sequence of up to three atoms / alphabet characters must go through without a panic
 fn one_shot_no_panic(ctx: &Ctx) -> fw::Stats {
@@ -512,6 +619,14 @@ pub fn run(ctx: &Ctx) -> i32 {
         st.exhaustive.push("every max_* query x ~70 lengths up to usize::MAX x every decoder state reachable by an atom / atom-pair / BOM look-alike prefix (3 BOM modes) and encoder states: no panic".into());
     }
     if !fw::should_stop() {
+        st.merge(validators_at_guard_pages(ctx));
+        st.exhaustive.push("every validator / classifier function x lengths 0..=72 x fillers (letters, 3-byte characters, spaces) x every planted unit class (incl. truncated ED / E0 / F4 sequences) within 4 units of the end and at the start x buffer ending at / starting after a PROT_NONE page: no fault, no panic".into());
+    }
+    if !fw::should_stop() {
+        st.merge(for_label_no_panic(ctx));
+        st.exhaustive.push("Encoding::for_label{,_no_replacement}: runs of 0..=48 copies of every byte value, every third label extended by 1..=24 copies of every byte value: no panic".into());
+    }
+    if !fw::should_stop() {
         st.merge(one_shot_no_panic(ctx));
         st.exhaustive.push("one-shot decode* on every sequence of up to three atoms (9 bytes) and Encoding::encode on alphabet triples, all 40 encodings: no panic".into());
     }
@@ -557,6 +672,30 @@ pub fn replay(case: &serde_json::Value) -> Option<Vec<fw::Violation>> {
             let mut q = super::c07::overflow_family(&ctx);
             q.violations.retain(|v| v.msg.contains("panicked"));
             Some(q.violations)
+        }
+        Some("c06_for_label") => {
+            let v = fw::unhex(case.get("label_hex")?.as_str()?);
+            let r = fw::catch(|| (encoding_rs::Encoding::for_label(&v), encoding_rs::Encoding::for_label_no_replacement(&v)));
+            Some(r.err().map(|p| vec![fw::Violation { msg: format!("Encoding::for_label panicked on {}: {}", fw::hex(&v), p), sig: "C06:for_label-panic".into(), case: case.clone() }]).unwrap_or_default())
+        }
+        Some("c06_validator") => {
+            let f = crate::valchk::VFn::from_name(case.get("function")?.as_str()?)?;
+            let s8 = fw::unhex(case.get("src8_hex")?.as_str()?);
+            let s16 = fw::unhex16(case.get("src16_hex")?.as_str()?);
+            let at_end = case.get("at_end")?.as_bool()?;
+            let mut g = crate::guard::GuardRegion::new(2);
+            let r = if f.is_u16() {
+                let b = if at_end { g.end_u16(s16.len()) } else { g.start_u16(s16.len()) };
+                b.copy_from_slice(&s16);
+                let bb: &[u16] = b;
+                fw::catch(|| crate::valchk::call(f, &[], bb))
+            } else {
+                let b = if at_end { g.end_u8(s8.len()) } else { g.start_u8(s8.len()) };
+                b.copy_from_slice(&s8);
+                let bb: &[u8] = b;
+                fw::catch(|| crate::valchk::call(f, bb, &[]))
+            };
+            Some(r.err().map(|p| vec![fw::Violation { msg: format!("{} panicked: {}", f.name(), p), sig: "C06:validator-panic".into(), case: case.clone() }]).unwrap_or_default())
         }
         Some("c06_one_shot_dec") => {
             let enc = encs::by_const(case.get("encoding")?.as_str()?)?;
